@@ -27,6 +27,21 @@ static struct nv_opaque nv_opaque_value(void) { struct nv_opaque x; return x; }
 #define NV_ISINF(x) ((x) == (x) && (x) - (x) != 0.0)
 /* same double value (NaN equals NaN): used where a contract says "the stored value is the observed one" */
 #define NV_SAME(a, b) ((a) == (b) || ((a) != (a) && (b) != (b)))
+/* <cmath> functions that no spec maps (fallback vocabulary of the printer, cxx2c.STD_CALLS): uninterpreted functions of their
+ * arguments -- congruence only, sound for every interpretation -- so that a change that INTRODUCES a call of one of them is
+ * decided (std::sqrt(epsilon) is not known to equal epsilon) instead of ending as "call not mapped" (exit 2) */
+double __CPROVER_uninterpreted_nv_sqrt(double);
+double __CPROVER_uninterpreted_nv_exp(double);
+double __CPROVER_uninterpreted_nv_log(double);
+double __CPROVER_uninterpreted_nv_log10(double);
+double __CPROVER_uninterpreted_nv_cbrt(double);
+double __CPROVER_uninterpreted_nv_pow(double, double);
+#define NV_UF_sqrt(x) __CPROVER_uninterpreted_nv_sqrt(x)
+#define NV_UF_exp(x) __CPROVER_uninterpreted_nv_exp(x)
+#define NV_UF_log(x) __CPROVER_uninterpreted_nv_log(x)
+#define NV_UF_log10(x) __CPROVER_uninterpreted_nv_log10(x)
+#define NV_UF_cbrt(x) __CPROVER_uninterpreted_nv_cbrt(x)
+#define NV_UF_pow(x, y) __CPROVER_uninterpreted_nv_pow(x, y)
 /* floating-point arithmetic in extracted code: uninterpreted by default (sound for every interpretation) */
 #ifndef NV_IEEE
 double __CPROVER_uninterpreted_fadd(double, double);
